@@ -66,3 +66,29 @@ _m("C04",
    "O_APPEND writes; the reader's validate-and-skip behaviour is decided under C06.",
    "MIR gate-cut reachability + effect inventory constraints + format-template decoding",
    "exhaustive static analysis of ordering and record-emission structure in every configuration (necessary conditions)")
+
+_m("C14",
+   "(a) who-may-index: every caller of an INDEX_INSERT is a COMMIT (whose guards and ordering are decided under C08/C04) or "
+   "inserts a constant None-integrity tombstone; (b) who-may-publish: the content-close primitive is called only from COMMITs "
+   "and `persist` occurs only inside it; (c) the temp file never escapes its delete-on-drop guard: zero NamedTempFile::keep / "
+   "into_temp_path / into_parts / into_file / TempPath::keep, zero mem::forget / ManuallyDrop::new / Box::leak / into_raw on a "
+   "value whose type (transitively) owns a NamedTempFile, and no Drop impl on such a type has filesystem effects; (d) every "
+   "spawn_blocking closure of the async writer that captures the temp owner returns State::Idle(Some(<that capture>)) on every "
+   "path unless it consumes it (persist / explicit drop); (e) commit and close take the writer by value.",
+   "When a detached blocking task finishes and executor drop order (runtime behaviour of the executors); that NamedTempFile's "
+   "Drop really unlinks (dependency model).",
+   "call-graph who-may-call + zero-count effect rules + identity value-flow per closure + signature facts",
+   "exhaustive static analysis over the call graph and effect inventory of every configuration (necessary conditions)")
+
+_m("C18",
+   "(a) In every checked verify-and-materialise function (calls a streaming reader's check() and reaches a Copy/Reflink/HardLink "
+   "effect) the materialising step is reachable only through the verification gate — or, alternatively, every failing edge of "
+   "the verification passes a RemoveFile of the destination before returning. (b) Counts: a checked copy returns 0 + the sum of "
+   "the amounts returned by its verification reads (identity flow from the reads' Ok payload through the AddWithOverflow "
+   "accumulator; no constant, no buffer length); unchecked copies return the copy primitive's count. (c) Keyed extractors: the "
+   "miss arm of the lookup reaches no filesystem effect and returns Error::EntryNotFound built from the same (cache, key) "
+   "that was looked up; the hit arm passes the caller's destination parameter unchanged.",
+   "Equality of destination bytes (follows from C01 + the primitive's semantics at run time); pre-existing destinations; "
+   "reflink support of the filesystem; propagation of the primitives' I/O errors is decided under C13.",
+   "MIR gate-cut reachability with cleanup alternative + accumulator provenance + decision arms of keyed wrappers",
+   "exhaustive static analysis of ordering/count/miss-arm structure in every configuration (necessary conditions)")
